@@ -345,16 +345,24 @@ def rule_r5(rep, program: Program):
         raise AnalysisError(msg)
     d = ret[0].value
     get_map = {}
+    filters = {}
     for k, v in zip(d.keys, d.values):
         if not (isinstance(k, ast.Constant) and isinstance(k.value, str)):
             msg = "ChainState.__getstate__: non-literal key"
             raise AnalysisError(msg)
         v = inline_self_call(program, "ChainState", v)
         methods = set(program.cls("ChainState").methods)
-        fields = {n.attr for n in ast.walk(v) if is_self_attr(n) and n.attr not in methods}
+        # the field that is pickled is the one iterated / returned; filters may consult other fields
+        root = v
+        while isinstance(root, ast.DictComp):
+            root = root.generators[0].iter
+        if isinstance(root, ast.Call) and isinstance(root.func, ast.Attribute) and root.func.attr in ("items", "copy", "keys", "values"):
+            root = root.func.value
+        fields = {n.attr for n in ast.walk(root) if is_self_attr(n) and n.attr not in methods}
         if len(fields) != 1:
             msg = f"ChainState.__getstate__: value for {k.value} does not read exactly one field"
             raise AnalysisError(msg)
+        filters[k.value] = v
         get_map[k.value] = fields.pop()
     sparam = ss.params[1]
     set_map = {}
@@ -388,6 +396,8 @@ def rule_r5(rep, program: Program):
             r.violate(PROP, f"ChainState.pickle:key={k}:missing-in-setstate", f"__getstate__ writes key '{k}' ({get_map[k]}) that __setstate__ never restores", node=gs.node, file=gs.file)
         elif get_map[k] != set_map[k]:
             r.violate(PROP, f"ChainState.pickle:key={k}:{get_map[k]}->{set_map[k]}", f"pickle round trip stores field {get_map[k]} under '{k}' but restores it into {set_map[k]}", node=ss.node, file=ss.file)
+    # keys kept in the pickled cache must keep their dependency registrations
+    _check_dependency_filter(r, gs, get_map, filters)
     missing = init_fields - set(set_map.values())
     for m in sorted(missing):
         r.violate(PROP, f"ChainState.pickle:field={m}:not-restored", f"field {m} set by __init__ is not restored by __setstate__ (attribute access recurses / fails after unpickling)", node=ss.node, file=ss.file)
@@ -443,6 +453,69 @@ def rule_r6(rep, program: Program):
         if marker == "None" and tests and not any("is None" in t for t in tests):
             r.violate(PROP, f"{dname}.wrapper:marker-not-recognised", "__setattr__ invalidates an entry by storing None, but the wrapper's miss test does not treat a None entry as missing: the invalidated entry (None) is returned", node=w, file=d.file)
     return r
+
+
+def _pred_cases(pred: ast.expr, keyname: str, case: str):
+    """Evaluate a filter predicate on a cache key for an entry that IS in the cache with a value of
+    kind `case` in {'none', 'value', 'callable'}; returns True/False or raises AnalysisError."""
+    if isinstance(pred, ast.UnaryOp) and isinstance(pred.op, ast.Not):
+        return not _pred_cases(pred.operand, keyname, case)
+    if isinstance(pred, ast.BoolOp):
+        vals = [_pred_cases(x, keyname, case) for x in pred.values]
+        return all(vals) if isinstance(pred.op, ast.And) else any(vals)
+    t = norm(pred)
+    val_exprs = (f"self._cache.get({keyname})", f"self._cache[{keyname}]", f"self._cache.get({keyname}, None)")
+    if isinstance(pred, ast.Compare) and len(pred.ops) == 1:
+        l, r_ = norm(pred.left), norm(pred.comparators[0])
+        if isinstance(pred.ops[0], ast.In) and l == keyname and r_ == "self._cache":
+            return True
+        if isinstance(pred.ops[0], ast.NotIn) and l == keyname and r_ == "self._cache":
+            return False
+        if l in val_exprs and r_ == "None":
+            isnone = case == "none"
+            return isnone if isinstance(pred.ops[0], (ast.Is, ast.Eq)) else not isnone
+    if isinstance(pred, ast.Call) and norm(pred.func) == "callable" and norm(pred.args[0]) in val_exprs:
+        return case == "callable"
+    raise AnalysisError(f"ChainState.__getstate__: filter predicate outside the grammar: {t[:60]}")
+
+
+def _check_dependency_filter(r, gs, get_map, filters):
+    dep_key = next((k for k, fld in get_map.items() if fld == "_dependencies"), None)
+    cache_key = next((k for k, fld in get_map.items() if fld == "_cache"), None)
+    if dep_key is None or cache_key is None:
+        return
+    dv, cv = filters[dep_key], filters[cache_key]
+    # cache filter: which kinds of entries are pickled
+    kept_cases = ["none", "value", "callable"]
+    if isinstance(cv, ast.DictComp) and cv.generators[0].ifs:
+        g = cv.generators[0]
+        kn, vn = (norm(x) for x in g.target.elts)
+        kept_cases = []
+        for case in ("none", "value", "callable"):
+            ok = True
+            for cond in g.ifs:
+                txt = norm(cond).replace(vn, f"self._cache[{kn}]") if vn in {n.id for n in ast.walk(cond) if isinstance(n, ast.Name)} else norm(cond)
+                ok = ok and _pred_cases(ast.parse(txt, mode="eval").body, kn, case)
+            if ok:
+                kept_cases.append(case)
+    # dependency filter (possibly nested comprehension over the key sets)
+    preds = []
+    for n in ast.walk(dv):
+        if isinstance(n, (ast.SetComp, ast.ListComp, ast.GeneratorExp, ast.DictComp)) and n is not dv or (n is dv and isinstance(dv, ast.DictComp)):
+            for g in n.generators:
+                for cond in g.ifs:
+                    names = {x.id for x in ast.walk(g.target) if isinstance(x, ast.Name)}
+                    preds.append((cond, sorted(names)))
+    r.inst({"pickled cache keeps entries of kind": kept_cases, "dependency filter": [norm(p) for p, _ in preds]})
+    for cond, names in preds:
+        keyname = names[0] if len(names) == 1 else None
+        if keyname is None:
+            raise AnalysisError("ChainState.__getstate__: dependency filter over a compound target")
+        for case in kept_cases:
+            if not _pred_cases(cond, keyname, case):
+                what = {"none": "an invalidated entry (value None)", "value": "a valid entry", "callable": "a function-valued entry"}[case]
+                r.violate(PROP, f"ChainState.__getstate__:dependencies-filter:{norm(cond)[:50]}", f"the pickled dependency table drops a key for which the pickled cache still holds {what} (filter `{norm(cond)}`): after unpickling the decorators find the key in the cache, never register it again, and later assignments no longer invalidate it - stale values", node=cond, file=gs.file)
+                return
 
 
 MUTATING_METHODS = {"sort", "fill", "resize", "put", "itemset", "partition"}
